@@ -52,6 +52,22 @@ def _spell(rng, op):
     op.append(k)
 
 
+def gen_full(rng, nops):
+    bits = rng.choice([32, 32, 8, 16])
+    top = 1 << bits
+    ops = []
+    for _ in range(nops):
+        a = rng.choice([0, 0, top, top, top // 2, rng.randrange(top)]) + rng.randrange(-9, 10)
+        if rng.random() < 0.15:
+            a += top * rng.choice([1, -1, 2])
+        w = rng.choice([1, 2, 4, 8])
+        ops.append(["w" if rng.random() < 0.5 else "r", a, w, rng.getrandbits(8 * w)])
+        _spell(rng, ops[-1])
+        if rng.random() < 0.12:
+            ops.append(list(ops[-1]))
+    return {"kind": "rv", "bits": bits, "ops": ops}
+
+
 def gen_toy(rng, nops):
     ops = []
     for _ in range(nops):
@@ -92,8 +108,18 @@ def run_case(prop, case, res):
     else:
         from architecture_simulator.uarch.riscv.riscv_architectural_state import RiscvArchitecturalState
 
-        m = RiscvArchitecturalState().memory
-        flat = FlatMem()
+        if case.get("bits"):
+            # a caller-built wrapping byte memory whose valid range is the whole address space of `bits` bits (what the
+            # repository's own instruction tests hand to the architectural state): every address is valid, an access
+            # that runs past the top continues at address 0
+            from architecture_simulator.uarch.memory.memory import Memory, AddressingType
+
+            m = Memory(AddressingType.BYTE, case["bits"], True)
+            flat = FlatMem(lo=0, hi=1 << case["bits"], modulo=1 << case["bits"])
+            res.count("histories_on_full_range_wrapping_memory")
+        else:
+            m = RiscvArchitecturalState().memory
+            flat = FlatMem()
         cells = lambda w: w
         RD = {1: m.read_byte, 2: m.read_halfword, 4: m.read_word, 8: m.read_doubleword}
         WR = {1: (m.write_byte, fixedint.UInt8), 2: (m.write_halfword, fixedint.UInt16), 4: (m.write_word, fixedint.UInt32), 8: (m.write_doubleword, fixedint.UInt64)}
@@ -212,6 +238,8 @@ def directed():
     return [
         {"kind": "rv", "ops": [["w", 0x3FFE, 4, 0x11223344], ["r", 0x4000, 2, 0], ["w", 0xFFFFFFFE, 4, 0xAABBCCDD], ["r", 0xFFFFFFFE, 2, 0], ["w", -2, 2, 0x1234], ["r", 0xFFFFFFFE + (1 << 32), 2, 0], ["r", 0x3FFF, 1, 0], ["w", 0, 8, 5], ["w", 0x4001, 8, 0x1122334455667788], ["r", 0x4003, 4, 0], ["r", 0x4000, 8, 0], ["w", 0xFFFFFFF9, 8, 0xFFFFFFFFFFFFFFFF], ["r", 0xFFFFFFFC, 4, 0]]},
         {"kind": "rv", "ops": [["w", 0x4000, 4, 0x11111111], ["w", 0x4001, 1, 0x1234, "wide-int"], ["r", 0x4000, 4, 0], ["w", 0x4002, 1, -1, "neg-int"], ["r", 0x4000, 4, 0], ["w", 0x4008, 1, 0xAABBCCDD, "u32"], ["r", 0x4008, 8, 0], ["w", 0x4010, 2, 0x12345678, "u32"], ["r", 0x4010, 4, 0], ["w", 0x4014, 4, 0x123456789, "wide-int"], ["r", 0x4014, 8, 0]]},
+        {"kind": "rv", "bits": 32, "ops": [["w", 0xFFFFFFFE, 4, 0xAABBCCDD], ["r", 0, 2, 0], ["r", 0xFFFFFFFF, 2, 0], ["w", -1, 2, 0x1122], ["r", 0xFFFFFFFC, 8, 0], ["w", (1 << 32) - 7, 8, 0x0102030405060708], ["r", 0, 4, 0], ["r", -3, 4, 0]]},
+        {"kind": "rv", "bits": 8, "ops": [["w", 0xFE, 4, 0xAABBCCDD], ["r", 0, 2, 0], ["r", 0xFF, 2, 0], ["w", 255, 8, 0x0102030405060708], ["r", 0, 8, 0], ["r", 256 + 3, 1, 0], ["w", -1, 2, 0x5566], ["r", 0xFF, 1, 0], ["r", 0, 1, 0]]},
         {"kind": "toy", "ops": [["w", 10, 2, 0x12345, "wide-int"], ["r", 10, 4, 0], ["w", 12, 2, -1, "neg-int"], ["r", 11, 8, 0], ["w", 20, 2, 0xAABBCCDD, "u32"], ["r", 20, 4, 0]]},
         {"kind": "toy", "ops": [["w", 4095, 2, 0xBEEF], ["r", 4095, 2, 0], ["w", 4095, 4, 0x12345678], ["r", 4095, 2, 0], ["w", 4096, 2, 1], ["r", -1, 2, 0], ["w", 0, 8, 0x1122334455667788], ["r", 1, 4, 0], ["r", 4096 + 5, 2, 0], ["w", 4093, 8, 7], ["r", 4093, 2, 0]]},
     ]
@@ -225,7 +253,7 @@ def run_shard(spec, res):
             res.evaluations += 1
         return
     for it in range(spec["n"]):
-        case = gen_rv(rng, rng.randint(60, 150)) if spec["kind"] == "rv" else gen_toy(rng, rng.randint(40, 120))
+        case = (gen_full(rng, rng.randint(40, 120)) if it % 5 == 4 else gen_rv(rng, rng.randint(60, 150))) if spec["kind"] == "rv" else gen_toy(rng, rng.randint(40, 120))
         if rng.random() < 0.3:
             case["neighbours"] = rng.choice([16, 100, 5000])
         if rng.random() < 0.4:
